@@ -40,12 +40,17 @@ META = {
             "with a non-default Compare (std::greater, a custom order) and a non-default Partitioner, with ascending and descending key sweeps - the "
             "model is unchanged for them, because the comparator only orders the local store and the partitioner only picks the owner; user lambdas are parameters (the harness registers "
             "a fixed table of visitors/reducers mirrored in Driver/MapSet.lean); topk's distributed merge is compared, not proved; "
-            "serialize/deserialize belong to C20.",
+            "serialize/deserialize belong to C20. Per-process (static) state shared between communicators or containers is probed by the two-communicator "
+            "and two-container cases only on the explored layouts (sub-communicators with a uniform ranks-per-node layout).",
 }
 
 RULE = ("a case = (scenario, container kind, key/value kinds, layout, routing, buffer, policy, sim seed); 1-rank cases are compared "
         "operation-sequence-exact with the model, multi-rank cases per key by order search / order-independent comparison; "
-        "non-trivial = at least one key with >= 2 operations from different ranks in one block (1-rank: >= 20 operations)")
+        "non-trivial = at least one key with >= 2 operations from different ranks in one block (1-rank: >= 20 operations); every scenario "
+        "keeps TWO containers of the same type alive on the communicator with interleaved operations (a third with equal shares), each judged "
+        "against its own contents; a quarter of the multi-rank cases run the same scenario, through the same template instantiations, on a "
+        "sub-communicator (MPI_Comm_split of the world by local id: last-vs-rest or parity) AND on the world communicator of one process, in "
+        "either order, and both runs (every sub-communicator group and the world) are judged with the same oracles / model comparison")
 
 LAYOUTS = [(1, 2), (1, 3), (2, 2), (1, 5), (2, 3), (1, 7), (2, 4), (4, 2), (1, 4), (3, 2), (1, 8), (1, 6)]
 ROUTINGS = ["NONE", "NR", "NLNR"]
